@@ -142,10 +142,12 @@ static int vp_both_seen;
 
 static void
 vp_check_os(void) {
+#if VP_POSIXCLOSE
+  int f;
+#endif
   if (vp_held[0] && vp_held[1])
     vp_both_seen = 1;
 #if VP_POSIXCLOSE
-  int f;
   for (f = 0; f < 2; f++)
     VP_ASSERT(!vp_held[f] || vp_oslock[f],
               "a lock file held by this process is still fcntl-locked at the OS level (no descriptor of it was closed)");
